@@ -21,6 +21,23 @@ CHECKS = {
         "Denotation clause only for grammar-clean headers; lenient extraction from other text is judged by the structural clause "
         "and the exception class. Either rejection accepted when a header is both malformed and unsatisfiable.",
     ),
+    "C11": (
+        "exploration",
+        "exhaustive enumeration of call histories x server scripts against a reference automaton, plus Hypothesis-generated longer histories",
+        "All call histories up to length 4 (quick) / 5 (thorough) over 15 wrapper operations and all server scripts with up to 2 / 3 "
+        "frames ending in disconnect or silence are driven loop-lessly against the real WebSocket class; forwarded events are judged by "
+        "an application-side automaton written independently, outcomes/payloads/consumption by a reference model; denial paths enumerated.",
+        "Typed receive meeting the other frame kind or the connect event is left open (accepted variation). Server delivers connect first. "
+        "asyncio scheduling is irrelevant: the wrapper never suspends except in the server's receive.",
+    ),
+    "C17": (
+        "exploration",
+        "exhaustive enumeration of operation sequences against a list-of-pairs model, plus Hypothesis sequences up to 50 operations and query-string round-trips",
+        "Every history of length <= 2 (quick) / 3 (thorough) over ~50 concrete operations from every initial pair list of length <= 2 in "
+        "all constructor forms is executed on MutableMultiMapping and on a plain list-of-pairs model; all views are compared after every step. "
+        "Hypothesis adds long histories and arbitrary-text QueryParams/FormData round-trips.",
+        "popitem may pick any present key; update(mapping) follows collections.abc.MutableMapping.update.",
+    ),
 }
 
 NOT_YET = "check not built yet (work in progress; see DESIGN.md section 3 for the plan)"
